@@ -34,6 +34,9 @@ func vNoPanicApply(d Diff) {
 	for _, t := range vC13Targets() {
 		p, err := vClone(t).Patch(d)
 		vAssert(err != nil || p != nil, "Patch returned neither a document nor an error")
+		if err == nil {
+			_ = p.Json() // the result must be a usable document
+		}
 	}
 	_ = d.Render()
 	_, _ = d.RenderPatch()
